@@ -1,7 +1,8 @@
 /-
 C03 — IR -> proto -> IR preserves the model; serialization has no side effects (model `IrVerif.Scope`).
 -/
-import IrVerif.Model.Scope
+import IrVerif.Lemmas.ScopeRTMain
+import IrVerif.Props.C17
 namespace IrVerif.Scope
 
 /-! ### the write log only changes tensor names -/
@@ -105,20 +106,6 @@ theorem C03_twice (w w1 : World) (p : GraphP) (h : serialize w = .ok (w1, p)) :
 
 /-! ### every write aligns an initializer tensor with the name of its value -/
 
-mutual
-/-- the (key, value) pairs of the initializers of every graph of the tree -/
-def allInitsG : GraphT → List (Name × Nat)
-  | .mk _ _ inits nodes _ => inits ++ allInitsNs nodes
-def allInitsNs : List NodeT → List (Name × Nat)
-  | [] => []
-  | n :: ns => allInitsN n ++ allInitsNs ns
-def allInitsN : NodeT → List (Name × Nat)
-  | .mk _ _ _ _ subs => allInitsGs subs
-def allInitsGs : List GraphT → List (Name × Nat)
-  | [] => []
-  | g :: gs => allInitsG g ++ allInitsGs gs
-end
-
 /-- a write `(t, n)` is justified by an initializer value whose tensor is `t` and whose name is `n` -/
 def Justified (vals : Nat → ValueS) (is : List (Name × Nat)) (w : Nat × Option Name) : Prop :=
   ∃ kv ∈ is, (vals kv.2).const = some w.1 ∧ (vals kv.2).name = w.2
@@ -166,10 +153,10 @@ theorem serGraph_writes (vals : Nat → ValueS) (td : TData) :
           simp only [List.mem_append] at hw
           rcases hw with hw | hw
           · exact (serInits_writes vals td _ inits w hw).mono (fun x hx => by simp only [allInitsG, List.mem_append]; first | exact .inl hx | exact .inr hx)
-          · exact (serNodes_writes vals td nodes _ _ _ hn w hw).mono (fun x hx => by simp only [allInitsG, List.mem_append]; first | exact .inl hx | exact .inr hx)
-theorem serNodes_writes (vals : Nat → ValueS) (td : TData) :
+          · exact (serNodes_writes vals td outputs nodes _ _ _ hn w hw).mono (fun x hx => by simp only [allInitsG, List.mem_append]; first | exact .inl hx | exact .inr hx)
+theorem serNodes_writes (vals : Nat → ValueS) (td : TData) (gouts : List Nat) :
     ∀ (ns : List NodeT) (nps : List NodeP) (vis : List VInfoP) (ws : Writes),
-      serNodes vals td ns = .ok (nps, vis, ws) → ∀ w ∈ ws, Justified vals (allInitsNs ns) w
+      serNodes vals td gouts ns = .ok (nps, vis, ws) → ∀ w ∈ ws, Justified vals (allInitsNs ns) w
   | [], nps, vis, ws, h => by
     simp only [serNodes, Except.ok.injEq, Prod.mk.injEq] at h
     obtain ⟨_, _, rfl⟩ := h
@@ -187,11 +174,11 @@ theorem serNodes_writes (vals : Nat → ValueS) (td : TData) :
         intro w hw
         simp only [List.mem_append] at hw
         rcases hw with hw | hw
-        · exact (serNode_writes vals td n _ _ _ h1 w hw).mono (fun x hx => by simp only [allInitsNs, List.mem_append]; first | exact .inl hx | exact .inr hx)
-        · exact (serNodes_writes vals td ns _ _ _ h2 w hw).mono (fun x hx => by simp only [allInitsNs, List.mem_append]; first | exact .inl hx | exact .inr hx)
-theorem serNode_writes (vals : Nat → ValueS) (td : TData) :
+        · exact (serNode_writes vals td gouts n _ _ _ h1 w hw).mono (fun x hx => by simp only [allInitsNs, List.mem_append]; first | exact .inl hx | exact .inr hx)
+        · exact (serNodes_writes vals td gouts ns _ _ _ h2 w hw).mono (fun x hx => by simp only [allInitsNs, List.mem_append]; first | exact .inl hx | exact .inr hx)
+theorem serNode_writes (vals : Nat → ValueS) (td : TData) (gouts : List Nat) :
     ∀ (n : NodeT) (np : NodeP) (vi : List VInfoP) (ws : Writes),
-      serNode vals td n = .ok (np, vi, ws) → ∀ w ∈ ws, Justified vals (allInitsN n) w
+      serNode vals td gouts n = .ok (np, vi, ws) → ∀ w ∈ ws, Justified vals (allInitsN n) w
   | .mk id gr inputs outputs subs, np, vi, ws, h => by
     simp only [serNode] at h
     split at h
@@ -253,5 +240,64 @@ theorem C03_pure (w w1 : World) (p : GraphP) (h : serialize w = .ok (w1, p)) :
     · right
       obtain ⟨kv, hkv, hc, hname⟩ := serGraph_writes _ _ _ _ _ hs (t, n) hn
       exact ⟨kv, hkv, hc, by simp [Store.writes, h, hname]⟩
+
+/-! ### round trip -/
+
+/-- **C03_roundtrip**: a serializable IR model can be serialized, the proto can be deserialized, and
+    the result is the same model up to a renaming `σ` of the value objects: same graph tree (node
+    order, inputs with optional `None` slots, outputs up to trailing empty-named ones, nested graphs,
+    initializer keys, graph inputs and outputs), `σ` injective on the defined values (a value used
+    in several places, in a nested graph or captured from an outer scope stays one value; distinct
+    values stay distinct), every value keeps its name — whatever the order of the nodes (the model
+    need not be topologically sorted).  The result is moreover consistent (`C17_consistent`). -/
+theorem C03_roundtrip (w : World) (h : Serializable w) :
+    ∃ (w1 : World) (p : GraphP) (D : World) (σ : Nat → Nat),
+      serialize w = .ok (w1, p) ∧ deserialize p = .ok D ∧ Iso w D σ ∧ Consistent D := by
+  obtain ⟨hnd, hS⟩ := h
+  obtain ⟨p, ws, hp⟩ := serGraph_ok w.st.vals w.st.tdata w.root [] hS
+  obtain ⟨s', g', B, hd, hrs, _, hk, ht⟩ := rt_graph w.st.vals w.st.tdata w.root {} [] [] p ws hp
+    (by simpa using hS) hnd (fun _ _ => by simp) (fun _ hv => by simp at hv) (fun _ ha => by simp at ha)
+    ⟨by simp, fun _ he => by simp at he, by simp, fun _ he => by simp at he⟩
+  simp only [List.map_nil, List.nil_append] at hd hrs ht
+  have hdes : deserialize p = .ok ⟨s', g'⟩ := by simp only [deserialize, hd]
+  refine ⟨⟨w.st.writes ws, w.root⟩, p, ⟨s', g'⟩, sig B, by simp only [serialize, hp], hdes, ?_,
+    C17_consistent p _ hdes⟩
+  exact ⟨TreeRelG.iso _ B _ _ ht,
+    fun a ha b hb he => hrs.sig_inj ((hk a).mpr ha) ((hk b).mpr hb) he,
+    fun v hv => hrs.sig_name ((hk v).mpr hv)⟩
+
+/-! ### non-vacuity -/
+
+/-- an IR model with an input `x`, an initializer `w`, node `A(x, w, None) -> y, ""` (trailing
+    empty-named output) whose attribute graph captures `y` and `t` from the outer graph, and node
+    `B(y) -> t` placed AFTER `A` although `A`'s subgraph uses `t` (not topologically sorted);
+    `y` is shared by `B` and the subgraph; `r` has no type or shape. -/
+def exampleWorld : World :=
+  let cells : List ValueS := [
+    { name := some "x", info := { ty := some "f32", sh := some "[2]" }, isIn := true, graph := some 1 },
+    { name := some "w", const := some 0, isInit := true, graph := some 1 },
+    { name := some "y", info := { ty := some "f32" }, producer := some 1, index := some 0, isOut := true,
+      graph := some 1 },
+    { name := some "", producer := some 1, index := some 1 },
+    { name := some "t", producer := some 2, index := some 0, isOut := true, graph := some 1 },
+    { name := some "r", producer := some 0, index := some 0, isOut := true, graph := some 0 } ]
+  { st := { vals := fun i => cells.getD i {}, nv := 6,
+            tens := fun _ => { name := none, data := "d0", ty := "f32", sh := "[2]" }, nt := 1, nn := 3, ng := 2 },
+    root := .mk 1 [0] [("w", 1)]
+      [ .mk 1 (some 1) [some 0, some 1, none] [2, 3]
+          [ .mk 0 [] [] [ .mk 0 (some 0) [some 2, some 4] [5] [] ] [5] ],
+        .mk 2 (some 1) [some 2] [4] [] ]
+      [2, 4] }
+
+example : Serializable exampleWorld := serializableB_sound _ (by decide +kernel)
+
+/-- a world that is not serializable: two values named `a` in one scope -/
+example : serializableB ⟨{ vals := fun _ => { name := some "a" }, nv := 2 }, .mk 0 [0, 1] [] [] []⟩ = false := by
+  decide +kernel
+
+/-- the hypotheses of `C03_twice` / `C03_pure` are satisfiable: the example serializes -/
+example : ∃ w1 p, serialize exampleWorld = .ok (w1, p) := by
+  obtain ⟨w1, p, _, _, h, _⟩ := C03_roundtrip exampleWorld (serializableB_sound _ (by decide +kernel))
+  exact ⟨w1, p, h⟩
 
 end IrVerif.Scope
